@@ -47,6 +47,8 @@ var (
 	ErrFloat64UnderflowsUint64 = errors.New("float64 underflows uint64")
 	// ErrFloat64OverflowsUint64 is returned if when converting a float64 to a uint64 overflow uint64
 	ErrFloat64OverflowsUint64 = errors.New("float64 overflows uint64")
+	// ErrDivideByZero is returned if coins are distributed among zero parts
+	ErrDivideByZero = errors.New("divide by zero")
 	// ErrFloat64NotFinite is returned if a float64 value is NaN or infinite
 	ErrFloat64NotFinite = errors.New("float64 value is NaN or infinite")
 )
@@ -177,6 +179,10 @@ func MinusInt64(c Coin, a int64) (Coin, error) {
 func DistributeCoin(c Coin, a int64) (oCur, bal Coin, err error) {
 	d, err := Int64ToCoin(a)
 	if err != nil {
+		return
+	}
+	if d == 0 {
+		err = ErrDivideByZero
 		return
 	}
 	oCur = c / d
